@@ -1,6 +1,7 @@
 package verifsim
 
 import (
+	"math"
 	"fmt"
 	"math/rand"
 	"sort"
@@ -216,6 +217,15 @@ func (w *World) execOn(e *engine.Engine, op Op) (err error, out string) {
 		if c.Maint != nil {
 			m := *c.Maint
 			maint = &m
+		}
+		if op.T == 1 {
+			// a threshold the caller computed as 0/0: it cannot be journaled (JSON has no NaN), so it must be refused
+			d := hnsw.DefaultMaintenanceConfig()
+			if maint != nil {
+				d = *maint
+			}
+			d.DeleteThreshold = math.NaN()
+			maint = &d
 		}
 		var mem *hnsw.MemoryConfig
 		if c.Mem != nil {
